@@ -154,6 +154,21 @@ type Report struct {
 }
 
 // violClass maps a violation message to a coarse class: first 60 bytes with digits and hex runs removed.
+// lineKind is the first four tokens of a case line, long ones (data) left out.
+func lineKind(l string) string {
+	f := strings.Fields(l)
+	if len(f) > 4 {
+		f = f[:4]
+	}
+	var k []string
+	for _, t := range f {
+		if len(t) <= 24 {
+			k = append(k, t)
+		}
+	}
+	return strings.Join(k, " ")
+}
+
 func violClass(s string) string {
 	var b strings.Builder
 	for _, r := range s {
@@ -292,10 +307,12 @@ func execAndWrite(p *Prop, tier string, seed uint64, dir string, lines []string,
 			rep.ModelLines++
 		}
 		if o.Viol != "" {
-			// at most 8 violations per class (message with digits/hex stripped) and 400 overall, so that one
+			// at most 8 violations per class (message with digits/hex stripped) and 4000 overall, so that one
 			// frequent (possibly known) failure cannot crowd a different one out of the report
-			cls := violClass(o.Viol)
-			if perClass[cls] < 8 && len(rep.Violations) < 400 {
+			// the class also carries the line's kind (its first tokens), so a new failure of another line kind is kept
+			// even when a listed finding fills its own classes
+			cls := violClass(o.Viol) + "|" + violClass(lineKind(l))
+			if perClass[cls] < 8 && len(rep.Violations) < 4000 {
 				rep.Violations = append(rep.Violations, Violation{Line: l, What: o.Viol, Go: o.Go})
 			}
 			perClass[cls]++
